@@ -158,7 +158,7 @@ class KeywordTask:
                         ob2.facts = facts
                         obls.append(ob2)
                     except seqmatch.Mismatch as e:
-                        shape_failures.append({"name": sname, "kind": "F", "status": "failed", "solver": "seqmatch", "time_s": 0.0,
+                        shape_failures.append({"name": sname, "kind": "F", "status": ("failed" if getattr(e, "definite", True) else "unknown"), "solver": "seqmatch", "time_s": 0.0,
                                                "note": "result structure differs from the expected one: %s" % e, "reason": str(e)})
         if nf == 0:
             raise RuntimeError("no normal path through %s" % self.name)
